@@ -80,7 +80,7 @@ int main (int argc, char **argv) {
 	int i, ep; pthread_t th[32];
 	if (argc < 6) return 2;
 	base = argv[2];
-	p_libsys_init ();
+	p_libsys_init (); p_libsys_shutdown (); p_libsys_init ();      /* the library is used after a shutdown / re-initialisation cycle */
 	mx = p_mutex_new (); cv = p_cond_variable_new ();
 	if (!strcmp (argv[1], "pc")) {
 		if (argc < 9) return 2;
